@@ -1,8 +1,16 @@
 package eval
 
 import (
+	"math"
+
 	"grol.io/grol/object"
 )
+
+// -0.0 == 0.0 as a map key yet 1/x tells them apart: don't memoize calls with a negative zero argument.
+func negativeZero(v object.Object) bool {
+	f, ok := v.(object.Float)
+	return ok && f.Value == 0 && math.Signbit(f.Value)
+}
 
 const MaxArgs = 4
 
@@ -32,7 +40,7 @@ func (c Cache) Get(fn string, args []object.Object) (object.Object, []byte, bool
 	key := CacheKey{Fn: fn}
 	for i, v := range args {
 		// Can't hash functions, arrays, maps arguments (yet).
-		if !object.Hashable(v) {
+		if !object.Hashable(v) || negativeZero(v) {
 			return nil, nil, false
 		}
 		key.Args[i] = v
@@ -51,7 +59,7 @@ func (c Cache) Set(fn string, args []object.Object, result object.Object, output
 	key := CacheKey{Fn: fn}
 	for i, v := range args {
 		// Can't hash functions arguments (yet).
-		if !object.Hashable(v) {
+		if !object.Hashable(v) || negativeZero(v) {
 			return
 		}
 		key.Args[i] = v
